@@ -265,7 +265,7 @@ def _months_shard(arg):
 
 def _year_shape(cal, y):
     miy = cal.get_months_in_year(y)
-    starts = tuple(impl.days_of(LocalDate(y, m, 1, cal)) for m in range(1, miy + 1))
+    starts = (impl.days_of(LocalDate(y, 1, 1, cal)), impl.days_of(LocalDate(y, miy, 1, cal)))
     return (cal.get_days_in_year(y), bool(cal.is_leap_year(y)), tuple(cal.get_days_in_month(y, m) for m in range(1, miy + 1)), starts)
 
 
